@@ -258,6 +258,30 @@ func Run(ctx *common.Ctx) int {
 			}
 		}
 	}
+	// a stuck source of 2^24 (+5) bytes and a 2^24+3-byte zero header before filler data: one byte value occurs
+	// 2^24 times (a pattern counter, its square or a shifted copy held in 32 bits wraps exactly here); poker and
+	// monobit pairs only, when the machine has the memory for the bit-level twin (about 1 GB)
+	if memAvailableGB() >= 8 {
+		for variant := 0; variant < 2; variant++ {
+			L := 1<<24 + 5
+			data := make([]byte, L)
+			what := "2^24+5 zero bytes"
+			if variant == 1 {
+				L = 1<<24 + 3 + 100000
+				data = make([]byte, L)
+				copy(data[1<<24+3:], enum.FillerBytes(100000, uint64(ctx.Seed)+99))
+				what = "2^24+3 zero bytes followed by 100000 filler bytes"
+			}
+			for i := range ps {
+				n := ps[i].name
+				if strings.HasPrefix(n, "PokerTestBytes(m=8)") || strings.HasPrefix(n, "PokerTestBytes(m=4)") || strings.HasPrefix(n, "MonoBit") {
+					cmpPair(&ps[i], data, func() interface{} { return map[string]interface{}{"bytes": L, "content": what} })
+				}
+			}
+		}
+	} else {
+		ctx.Note("less than 8 GB available: the 2^24-byte stuck-source pairs were skipped")
+	}
 	// 125000-byte inputs with planted long runs (the 10000-bit regime of the longest-run test)
 	for _, L := range []int{255, 256, 260, 272, 512, 520, 1030, 4096, 9999, 10000} {
 		data := enum.FillerBytes(125000, uint64(ctx.Seed)+uint64(L)+31)
@@ -523,4 +547,19 @@ func Run(ctx *common.Ctx) int {
 		"exhaustive": true,
 	}
 	return ctx.Finish("exploration", cov, []string{"bit-identical means identical float64 bit patterns", "the DFT runner's semantics are compared in C05; here it is compared with its byte/bit twins and through Round15"})
+}
+
+func memAvailableGB() int {
+	b, err := os.ReadFile("/proc/meminfo")
+	if err != nil {
+		return 0
+	}
+	for _, l := range strings.Split(string(b), "\n") {
+		if strings.HasPrefix(l, "MemAvailable:") {
+			var kb int
+			fmt.Sscanf(strings.TrimSpace(strings.TrimPrefix(l, "MemAvailable:")), "%d", &kb)
+			return kb / 1024 / 1024
+		}
+	}
+	return 0
 }
